@@ -421,6 +421,7 @@ class DatasetProcessor:
     def __init__(self, args):
         self.args = args
         self.args.gunzipped_reference = None
+        self.restart_without_read_group = bool(args.read_assignments) and args.read_group is None
         self.common_header = "# Command line: " + args._cmd_line + "\n# IsoQuant version: " + args._version + "\n"
         self.io_support = IOSupport(self.args)
         self.all_read_groups = set()
@@ -533,9 +534,9 @@ class DatasetProcessor:
                 logger.info("To keep these intermediate files for debug purposes use --keep_tmp flag")
 
         total_assignments, polya_found, self.all_read_groups = self.load_read_info(saves_file)
-        if self.args.read_assignments and self.args.read_group is None and len(self.all_read_groups) > 1:
-            # no --read_group, but the saved run stored several groups: its experiment had several files, which are grouped by file name
-            self.args.read_group = "file_name"
+        if self.args.read_assignments and self.restart_without_read_group:
+            # no --read_group: an experiment whose saved run stored several groups had several files, which are grouped by file name
+            self.args.read_group = "file_name" if len(self.all_read_groups) > 1 else None
         if self.args.read_assignments and self.args.read_group == "file_name":
             # restarting from saved assignments: the input files are not listed, every file of the saved run is a read group
             self.args.use_technical_replicas = len(self.all_read_groups) > 1
